@@ -136,7 +136,12 @@ def inherit (v : Variant) (s : Spec) : Except Err Spec :=
       | .intended, none => some (.tobj d.t0 d.unit)
       | _, t => t
     let s := { s with unit := unit, t0 := t0 }
-    if tspec = wd 0 then .ok { s with rate := some (.freq d.rate), duration := some dDur }
+    -- intended: wherever the sampling is taken over, the exact integer interval comes along with the
+    -- rate (nothing is re-derived from the binary64 rate); today only the rate is taken
+    let dIv : Option TArg := match v with
+      | .intended => some (.tobj d.dt d.unit)
+      | .current => s.interval
+    if tspec = wd 0 then .ok { s with rate := some (.freq d.rate), duration := some dDur, interval := dIv }
     else if tspec = wd 1 then
       match v with
       | .intended => .ok { s with duration := some dDur }
@@ -156,8 +161,8 @@ def inherit (v : Variant) (s : Spec) : Except Err Spec :=
         | none => .ok s
     else if tspec = wd 3 then
       .ok { s with duration := some (.tobj ((s.length.getD 0 : Nat) * d.dt) d.unit),
-                   rate := some (.freq d.rate) }
-    else if tspec = wd 4 then .ok { s with rate := some (.freq d.rate) }
+                   rate := some (.freq d.rate), interval := dIv }
+    else if tspec = wd 4 then .ok { s with rate := some (.freq d.rate), interval := dIv }
     else .ok s
 
 /-! ### unit -/
@@ -202,12 +207,19 @@ def deriveIntervalRate (v : Variant) (u : TimeUnit) (n : Option Nat)
     (interval : Option TArg) (rate : Option RArg) (duration : Option TArg) :
     Except Err (TArg × Rat) :=
   match interval with
-  | some (.tobj ps iu) =>
-    let x := F64.fdiv (F64.ofInt ps) (cf iu)
-    if x = 0 then .error .zeroDiv else .ok (.tobj ps iu, frequency (F64.fdiv 1 x) iu)
-  | some (.num x) =>
-    if numToF x = 0 then .error .zeroDiv
-    else .ok (.num x, frequency (F64.fdiv 1 (numToF x)) u)
+  | some iv =>
+    -- intended: `elif sampling_rate is None` — a rate inherited together with the interval is kept
+    match v, rate with
+    | .intended, some (.freq hz) => .ok (iv, hz)
+    | .intended, some (.num r) => .ok (iv, frequency (numToF r) .s)
+    | _, _ =>
+      match iv with
+      | .tobj ps iu =>
+        let x := F64.fdiv (F64.ofInt ps) (cf iu)
+        if x = 0 then .error .zeroDiv else .ok (.tobj ps iu, frequency (F64.fdiv 1 x) iu)
+      | .num x =>
+        if numToF x = 0 then .error .zeroDiv
+        else .ok (.num x, frequency (F64.fdiv 1 (numToF x)) u)
   | none =>
     match rate with
     | some (.freq hz) =>
